@@ -131,11 +131,11 @@ Spec == Init /\ [][Next]_vars
 UnmutatedOutcome == (hist = <<>>) => (Outcome = (IF B.bad = {} THEN "ok" ELSE "invalid"))
 \* lossless columns never carry picture_bytes in an accepted file
 LosslessExcludesPictureBytes == obs = "ok" =>
-  \A c \in Cols : (~Blank(c) /\ Lossless(c)) => cells[c]["picture_bytes"] \in {"empty", "keep"}
+  \A c \in Cols : (~Blank(c) /\ Lossless(c)) => cells[c]["picture_bytes"] \in {"empty", "keep", "ws"}
 \* an accepted file has no out-of-domain class anywhere in a non-blank column
 OkMeansInDomain == obs = "ok" =>
   \A c \in Cols : ~Blank(c) => \A f \in AllFields :
-     cells[c][f] \notin {"malformed", "negative", "below_min", "int_oob", "name_bad", "qm_short", "qm_long", "qm_nonint", "dupname"}
+     cells[c][f] \notin {"malformed", "negative", "below_min", "int_oob", "name_bad", "qm_short", "qm_long", "qm_nonint"}
 
 View == <<file, cells, struct, obs, inp>>
 =============================================================================
